@@ -6,7 +6,7 @@
     mem_kv.go by the correspondence run of every check. *)
 From Coq Require Import List NArith Bool String.
 From Verif Require Import Kv.KeyOrd Kv.AList Kv.Spec Kv.Mem Kv.Sql Kv.Refine Kv.Facts Kv.KvGen
-  Gen.KvSql.
+  Kv.KvCorr Gen.KvSql.
 Import ListNotations.
 Local Open Scope N_scope.
 
@@ -213,6 +213,65 @@ Proof.
 Qed.
 Print Assumptions C05_partial_keys_uint64.
 
+(** ** Keys are limited in bytes; classes and values are not limited at all *)
+
+Theorem C05_ordered_key_accepted_iff : forall hk k,
+  map_key gen_max_key_len true hk k = Some k <-> lenN k <= gen_max_key_len.
+Proof. exact (ordered_key_accepted_iff gen_max_key_len). Qed.
+Print Assumptions C05_ordered_key_accepted_iff.
+
+Theorem C05_key_limit_counts_bytes : forall hk (rune : bytes) (m : nat),
+  map_key gen_max_key_len true hk (List.concat (repeat rune m))
+  = if N.of_nat m * lenN rune <=? gen_max_key_len then Some (List.concat (repeat rune m)) else None.
+Proof. exact (repeated_rune_key gen_max_key_len). Qed.
+Print Assumptions C05_key_limit_counts_bytes.
+
+Theorem C05_add_is_addclass_empty :
+  forall maxlen ordered hk jv (S : Type) (step : S -> bop -> S * result) s k v,
+  kv_step maxlen ordered hk jv step s (UAdd k v) = kv_step maxlen ordered hk jv step s (UAddClass k [] v).
+Proof. exact add_is_addclass_empty. Qed.
+Print Assumptions C05_add_is_addclass_empty.
+
+Theorem C05_class_stored_verbatim : forall s k c v,
+  lookup k s = None -> lookup k (fst (spec_step s (BAdd k c v))) = Some (c, v).
+Proof. exact class_stored_verbatim. Qed.
+Print Assumptions C05_class_stored_verbatim.
+
+(** ** Values that are not JSON *)
+
+Theorem C05_get_undecodable : forall maxlen ordered hk jv s k mk c v,
+  map_key maxlen ordered hk k = Some mk -> @lookup entry mk s = Some (c, v) -> jv v = false ->
+  kv_step maxlen ordered hk jv spec_step s (UGet k) = (s, RErr EDecode) /\
+  kv_step maxlen ordered hk jv spec_step s (UGetBytes k) = (s, RBytes v).
+Proof. exact kv_get_undecodable. Qed.
+Print Assumptions C05_get_undecodable.
+
+Theorem C05_mutate_undecodable_noop : forall maxlen ordered hk jv s k mk c v f,
+  map_key maxlen ordered hk k = Some mk -> @lookup entry mk s = Some (c, v) ->
+  jv v = false ->
+  kv_step maxlen ordered hk jv spec_step s (UMutate k f) = (s, RErr EDecode).
+Proof. exact kv_undecodable_mutate_noop. Qed.
+Print Assumptions C05_mutate_undecodable_noop.
+
+Theorem C05_setbytes_any_value : forall maxlen ordered hk jv s k mk c v0 v,
+  map_key maxlen ordered hk k = Some mk -> @lookup entry mk s = Some (c, v0) ->
+  snd (kv_step maxlen ordered hk jv spec_step s (USetBytes k v)) = RUnit /\
+  lookup mk (fst (kv_step maxlen ordered hk jv spec_step s (USetBytes k v))) = Some (c, v).
+Proof. exact kv_setbytes_any_value. Qed.
+Print Assumptions C05_setbytes_any_value.
+
+Theorem C05_walk_stops_at_undecodable : forall jv (a b : table) k c v,
+  Forall (fun p => jv (snd (snd p)) = true) a -> jv v = false ->
+  visit (do_walk jv WAll) (a ++ (k, (c, v)) :: b) = (map snd a, Some EDecode).
+Proof. exact visit_stops_at_undecodable. Qed.
+Print Assumptions C05_walk_stops_at_undecodable.
+
+Theorem C05_walk_all_decodable : forall jv (a : table),
+  Forall (fun p => jv (snd (snd p)) = true) a ->
+  visit (do_walk jv WAll) a = (map snd a, None).
+Proof. exact visit_all_decodable. Qed.
+Print Assumptions C05_walk_all_decodable.
+
 (** ** The source is the deployed one *)
 Theorem C05_source_frozen :
   gen_sqlite_methods = deployed_methods /\
@@ -256,6 +315,25 @@ Example C05_legacy_replace_refuted :
   forallb bop_okb ops = true /\
   snd (run mem_step_legacy [] ops) <> snd (run spec_step [] ops).
 Proof. split; [reflexivity|vm_compute; discriminate]. Qed.
+
+(** 85 three-byte runes are 255 bytes (accepted), 86 are 258 bytes and 86
+    runes (refused): the limit is not a count of characters *)
+Example C05_nonvacuous_rune_keys :
+  let zhong := [228; 184; 173] in
+  map_key gen_max_key_len true (fun k => k) (List.concat (repeat zhong 85))
+  = Some (List.concat (repeat zhong 85)) /\
+  map_key gen_max_key_len true (fun k => k) (List.concat (repeat zhong 86)) = None.
+Proof. vm_compute. split; reflexivity. Qed.
+
+(** an undecodable value in the middle of a walk *)
+Example C05_nonvacuous_undecodable :
+  let ops := [UAdd [97] [49]; UAdd [98] [50]; UAdd [99] [51]; USetBytes [98] [123];
+              UGet [98]; UGetBytes [98]; UWalk WAll; UWalkPartial 0 9 true WAll;
+              UMutate [98] (fun _ => MSet [53]); UCount] in
+  snd (run (kv_step gen_max_key_len true (fun k => k) Kv.KvCorr.json_ok spec_step) [] ops)
+  = [RUnit; RUnit; RUnit; RUnit; RErr EDecode; RBytes [123]; RWalk [([], [49])] (Some EDecode);
+     RWalk [([], [51])] (Some EDecode); RErr EDecode; RCount 3].
+Proof. vm_compute. reflexivity. Qed.
 
 (** window edges: at the top of the statement's range nothing wraps (and
     nothing is visited); [Offset: 1, N: MaxUint64] wraps and panics on the
